@@ -21,8 +21,9 @@ CLAIMED = {
         design_ref="DESIGN.md section 8 (C01), section 9"),
     "C05": dict(
         text="Coq theorems C05_share (m = min_i floor(d_i*T/r_i) as a sandwich) and C05_first (whitelist, minimums, floor sqrt) over the model of "
-             "calculate_lp_token_amount_to_user; tied to the real function by the differential correspondence.  PARTIAL: the ledger-level half "
-             "(exact deposits pulled, reserved unit, zero-share rejection) needs the world model.",
+             "calculate_lp_token_amount_to_user; tied to the real function by the differential correspondence; C05_structure (ledger level: exact deposits pulled, reserved unit minted to the LP token's own address, zero-share rejection) over the world model; "
+             "C05_locked_unit / C05_lp_address_never_debited / C05_inert_step / C05_inert_history (the reserved unit can never be spent: over any history of user-submitted operations from the harness's start no asset held at an LP token's own address is ever debited; "
+             "induction over run with the invariant Inert' - contracts hold no outgoing allowances, the router is not a token - whose two extra hypotheses are shown necessary by machine-checked counterexamples).",
         design_ref="DESIGN.md section 8 (C05)"),
     "C06": dict(
         text="Coq theorems C06_band / C06_commission / C06_commission_stays / C06_sum / C06_mono / C06_ok_iff over the "
@@ -54,7 +55,7 @@ CLAIMED = {
     "C02": dict(
         text="Coq theorems over the world model (bank, cw20-base, pair, factory, router; one Gallina handler per Rust arm): C02_payment, C02_settlement (a swap is priced on the "
              "reserves net of the delivered offer and moves exactly the returned amount of the ask asset pair->receiver, nothing else; aliasing included), C02_delivered_execute / "
-             "C02_delivered_hook (named asset and amount = delivered asset and amount in the same transaction), C02_attached_funds, C02_hook_confusion_rejected.  Tied to the real "
+             "C02_delivered_hook (named asset and amount = delivered asset and amount in the same transaction), C02_attached_funds, C02_hook_confusion_rejected, C02_tx_native / C02_tx_hook (the WHOLE transaction, entry transfer included, as the user sees it: pair offer reserve +amount, ask reserve -return, receiver +return, trader -amount, every third account unchanged, priced by compute_swap on the reserves before the transaction).  Tied to the real "
              "contracts in cw-multi-test by full-ledger snapshot comparison after every step of an exhaustive delivered x named x amount x funds x receiver matrix and random histories; "
              "settlement monitor evaluated on the implementation's snapshots.  The defect found here was repaired in /repo (fix: C02).",
         design_ref="DESIGN.md section 8 (C02), section 9"),
@@ -67,7 +68,7 @@ CLAIMED = {
         design_ref="DESIGN.md section 8 (C03), section 9"),
     "C04": dict(
         text="Coq theorems C04_fn (r_i*a/T - r_i/10^18 - 1 < x_i <= r_i*a/T as cross-multiplied sandwich), C04_le_reserve, C04_total over the withdrawal arithmetic, and C04_structure / "
-             "C04_sys over the world model (holder receives x_i from the pair, supply and the pair's LP balance fall by exactly a, no other account changes).  Tied to the real contracts by "
+             "C04_sys over the world model (holder receives x_i from the pair, supply and the pair's LP balance fall by exactly a, no other account changes), C04_tx (the whole Send{withdraw} transaction pointwise on the ledger).  Tied to the real contracts by "
              "ledger snapshot comparison and the withdrawal monitor on random and extreme histories.",
         design_ref="DESIGN.md section 8 (C04)"),
     "C07": dict(
@@ -102,7 +103,7 @@ CLAIMED = {
         text="Coq theorems C16_sym, C16_inj (key equality => same unordered set over any prefix-free identifier universe), C16_refuted (KF-key-concat witness), "
              "C16_same_asset_rejected, C16_duplicate_rejected, C16_create_lookup and C16_hist (any history of creation attempts: created sets resolve in either order "
              "to their own record, all others to nothing) over the storage-level model of pair_key/PAIRS; tied to the real pair_key and PAIRS map on MockStorage.  "
-             "World level: C16_create_facts (owner, distinct assets, unregistered set, true decimals of registered natives / live cw20s, record = new pair's description), C16_world_duplicate_rejected, C16_world_lookup_either_order, C16_world_injective, C16_world_consistent over the world model, tied to the real factory by creation histories.",
+             "World level: C16_create_facts (owner, distinct assets, unregistered set, true decimals of registered natives / live cw20s, record = new pair's description), C16_world_duplicate_rejected, C16_world_lookup_either_order, C16_world_injective, C16_world_consistent, C16_lookup_self_description (after ANY history from a well-formed start, whatever the factory returns for a lookup is the pair's own description and the queried set) over the world model, tied to the real factory by creation histories.",
         design_ref="DESIGN.md section 8 (C16), section 9"),
     "C19": dict(
         text="Coq theorems C19_page, C19_walk (for every sorted registry with records under their own keys and every page size >= 1 or absent, the client walk's pages "
@@ -112,7 +113,7 @@ CLAIMED = {
         design_ref="DESIGN.md section 8 (C19), section 9"),
     "C17": dict(
         text="Coq theorems C17_update (re-registration rewrites EVERY record of the unbounded registry in the denom's position and keeps RegOK, i.e. record = pair self-description; induction "
-             "over the registry), C17_first_registration, C17_consistent_init / _create / _frame.  Tied to the real factory/pairs by creation+registration histories with 1..14 pairs and the "
+             "over the registry), C17_first_registration, C17_consistent_init / _create / _frame, C17_step / C17_history (record = pair self-description is preserved by EVERY operation, hence over every history; induction over run).  Tied to the real factory/pairs by creation+registration histories with 1..14 pairs and the "
              "decimals monitor.  The defect found here was repaired in /repo (fix: C17).",
         design_ref="DESIGN.md section 8 (C17), section 9"),
     "C18": dict(
@@ -122,7 +123,7 @@ CLAIMED = {
         design_ref="DESIGN.md section 8 (C18)"),
     "C20": dict(
         text="Coq theorems C20 / C20_handler / C20_refund_positive and C20_reachable (in every world reachable by any history from a well-formed start an entitled withdrawal succeeds; the "
-             "structural hypotheses are discharged by the invariant WF, the numeric ones - 128-bit balances - remain as E-supply), built on C04_total; on the real "
+             "structural hypotheses are discharged by the invariant WF), C20_solvent_step / C20_solvent_history (solvency - balances over any roster add up to < 2^128 resp. <= the recorded supply - is preserved by every operation) and C20_invariants (ALL side hypotheses discharged: from a well-formed solvent start, after any history, an entitled withdrawal succeeds), built on C04_total; on the real "
              "contracts every LP holder's withdrawals of {1, half, all, a tenth} after random and extreme histories (donations up to 2^119) are checked against the entitlement condition by "
              "the liveness monitor, with ledger snapshot comparison with the model.",
         design_ref="DESIGN.md section 8 (C20)"),
